@@ -48,6 +48,8 @@ type Case struct {
 	FaultAt  int    `json:"fault_at,omitempty"` // >0: the k-th Resource call fails
 	FaultHow int    `json:"fault_how,omitempty"`
 	Note     string `json:"note,omitempty"`
+	// Focus lists glyphs the mutation is about: the executor shapes the runes mapped to them
+	Focus []uint16 `json:"focus,omitempty"`
 }
 
 func (c *Case) bytes() []byte {
@@ -439,7 +441,7 @@ func execute(c *Case, data []byte, seed uint64) (o outcome) {
 				continue
 			}
 			o.faces++
-			queryFace(ft, w, seed+uint64(li))
+			queryFace(ft, w, seed+uint64(li), c.Focus)
 		}
 		// the collection entry point
 		if c.FaultAt == 0 {
@@ -454,7 +456,7 @@ func execute(c *Case, data []byte, seed uint64) (o outcome) {
 	return o
 }
 
-func queryFace(ft *font.Font, w func(a ...any), seed uint64) {
+func queryFace(ft *font.Font, w func(a ...any), seed uint64, focus []uint16) {
 	face := font.NewFace(ft)
 	w(ft.Upem(), ft.HasVerticalMetrics(), ft.IsMonospace())
 	d := ft.Describe()
@@ -587,6 +589,70 @@ func queryFace(ft *font.Font, w func(a ...any), seed uint64) {
 			out := sh.Shape(shaping.Input{Text: chunk, RunStart: 0, RunEnd: len(chunk), Direction: dir, Face: face, Size: fixed.I(16),
 				Script: script, Language: language.NewLanguage("en")})
 			w(len(out.Glyphs), out.Advance)
+		}
+	}
+	// every feature of the font switched on (alternates, stylistic sets, ... are otherwise
+	// never applied), on the first chunk and on the runes of the focus glyphs
+	var feats []shaping.FontFeature
+	seenTag := map[font.Tag]bool{}
+	for _, l := range []*font.Layout{&ft.GSUB.Layout, &ft.GPOS.Layout} {
+		for _, f := range l.Features {
+			if !seenTag[f.Tag] && len(feats) < 64 {
+				seenTag[f.Tag] = true
+				feats = append(feats, shaping.FontFeature{Tag: f.Tag, Value: 1})
+			}
+		}
+	}
+	var focusText []rune
+	if len(focus) > 0 && ft.Cmap != nil {
+		want := map[font.GID]bool{}
+		for _, g := range focus {
+			want[font.GID(g)] = true
+		}
+		it := ft.Cmap.Iter()
+		for n := 0; n < 70000 && it.Next() && len(focusText) < 16; n++ {
+			if r, g := it.Char(); want[g] {
+				focusText = append(focusText, r)
+			}
+		}
+		sort.Slice(focusText, func(i, j int) bool { return focusText[i] < focusText[j] })
+		// each focus rune also next to every other one (pairs, ligatures, contexts)
+		if n := len(focusText); n > 0 && n <= 6 {
+			for i := 0; i < n; i++ {
+				for j := 0; j < n; j++ {
+					focusText = append(focusText, focusText[i], focusText[j])
+				}
+			}
+		}
+	}
+	first := text
+	if len(first) > 24 {
+		first = first[:24]
+	}
+	for ti, tx := range [][]rune{first, focusText} {
+		if len(tx) == 0 {
+			continue
+		}
+		script := language.Common
+		for _, r := range tx {
+			if sc := language.LookupScript(r); sc != language.Common && sc != language.Inherited && sc != language.Unknown {
+				script = sc
+				break
+			}
+		}
+		dirs := []di.Direction{di.DirectionLTR}
+		if ti == 1 {
+			dirs = []di.Direction{di.DirectionLTR, di.DirectionRTL}
+		}
+		for _, dir := range dirs {
+			for _, ff := range [][]shaping.FontFeature{feats, nil} {
+				if ti == 0 && ff == nil {
+					continue // already shaped above
+				}
+				out := sh.Shape(shaping.Input{Text: tx, RunStart: 0, RunEnd: len(tx), Direction: dir, Face: face, Size: fixed.I(16),
+					Script: script, Language: language.NewLanguage("en"), FontFeatures: ff})
+				w(len(out.Glyphs), out.Advance)
+			}
 		}
 	}
 }
@@ -1265,6 +1331,8 @@ func GenCase(seed int64, idx int, files []*corpus.File) *Case {
 			return genRecursionCase(seed, idx/32, files)
 		case 1:
 			return genBitmapIndexCase(seed, idx/32, files)
+		default:
+			return genLayoutCase(seed, idx/32*2+(idx/8)%4-2, files)
 		}
 	}
 	return genFileCase(seed, idx, files)
